@@ -515,6 +515,12 @@ impl VersionSet {
                             ManifestWriteErrorKind::ManifestErrorCleanup(remove_file_error.into()),
                         ));
                     }
+                } else {
+                    // The failed append may have left a part of the record in the manifest file.
+                    // Nothing may be appended after it, so the next change starts a new manifest
+                    // file (with a snapshot of the current state) under a new file number.
+                    version_set.maybe_manifest_file = None;
+                    version_set.manifest_file_number = version_set.get_new_file_number();
                 }
 
                 return Err(error);
